@@ -95,6 +95,8 @@ def to_ics(o, uid="u1", extra=()):
             else:
                 lines.append("DURATION:" + fmt_duration(o["end"][1]))
         lines += rec_lines(kind, o["rec"])
+        if o.get("rdate"):
+            lines.append(("RDATE;VALUE=DATE:" if kind == "DATE" else "RDATE:") + ",".join(fmt_val(kind, x) for x in o["rdate"]))
     elif t == "VTODO":
         if o["dtstart"] is not None:
             lines.append(prop_line("DTSTART", kind, o["dtstart"]))
@@ -112,8 +114,14 @@ def to_ics(o, uid="u1", extra=()):
             lines.append(prop_line("DTSTART", kind, o["start"]))
         lines += rec_lines(kind, o["rec"])
     lines += list(extra)
+    more = ""
+    for ov in o.get("overrides") or []:
+        # a rescheduled instance: same UID, RECURRENCE-ID = the instance it replaces
+        more += ("BEGIN:%s\r\nUID:%s\r\nDTSTAMP:20200101T000000Z\r\nSUMMARY;X-P=1:moved\r\n%s\r\n%s\r\n%s\r\nEND:%s\r\n" % (
+            t, uid, prop_line("RECURRENCE-ID", kind, ov["rid"]), prop_line("DTSTART", kind, ov["start"]),
+            prop_line("DTEND", kind, ov["end"]), t))
     return ("BEGIN:VCALENDAR\r\nPRODID:-//verif//C16//EN\r\nVERSION:2.0\r\nBEGIN:%s\r\nUID:%s\r\n"
-            "DTSTAMP:20200101T000000Z\r\nSUMMARY;X-P=1:s\r\n%s\r\nEND:%s\r\nEND:VCALENDAR\r\n" % (t, uid, "\r\n".join(lines), t))
+            "DTSTAMP:20200101T000000Z\r\nSUMMARY;X-P=1:s\r\n%s\r\nEND:%s\r\n%sEND:VCALENDAR\r\n" % (t, uid, "\r\n".join(lines), t, more))
 
 
 # ------------------------------------------------------------------------------------------ Gallina text
@@ -131,7 +139,7 @@ def enc_rec(rec):
     b = rec["bound"]
     bt = "RForever" if not b else ("(RCount %s)" % z(b[1]) if b[0] == "count" else "(RUntil %s)" % z(b[1]))
     return "(Some (Build_recur (Build_rrule %s %s %s) [%s]))" % (
-        "Daily" if rec["freq"] == "DAILY" else "Weekly", z(rec["interval"]), bt, ";".join(z(x) for x in rec["ex"]))
+        {"HOURLY": "Hourly", "DAILY": "Daily", "WEEKLY": "Weekly"}[rec["freq"]], z(rec["interval"]), bt, ";".join(z(x) for x in rec["ex"]))
 
 
 def enc_kind(k):
@@ -308,9 +316,9 @@ def gen_instant(rng, kind):
 def gen_rec(rng, kind, s0, allow_forever=True):
     if rng.random() < 0.45:
         return None
-    freq = rng.choice(["DAILY", "DAILY", "WEEKLY"])
+    freq = rng.choice(["DAILY", "DAILY", "WEEKLY"] + (["HOURLY"] if kind == "DT" else []))
     interval = rng.choice([1, 1, 1, 2, 3, 10])
-    p = interval * (DAY if freq == "DAILY" else 7 * DAY)
+    p = interval * UNIT[freq]
     c = rng.random()
     if c < 0.4:
         bound = ["count", rng.choice([1, 2, 3, 5, 12])]
@@ -391,13 +399,43 @@ def gen_vtodo(rng):
     return o
 
 
+def gen_ext_event(rng, mode=None):
+    """VEVENT objects beyond the Coq grammar: RDATE (with or without RRULE), several instances per day (FREQ=HOURLY),
+    rescheduled instances (RECURRENCE-ID override components).  UTC DATE-TIME only."""
+    mode = mode or rng.choice(["rdate", "rdate", "rdate+rrule", "hourly+override", "hourly+override", "daily+override", "rdate+override"])
+    s = gen_instant(rng, "DT")
+    ln = rng.choice([1, 600, 1800, 3600, 3 * 3600, DAY + 3600])
+    end = rng.choice([["dtend", s + ln], ["dtend", s + ln], ["dur", ln], None])
+    o = dict(t="VEVENT", kind="DT", start=s, end=end, rec=None, rdate=[], overrides=[])
+    if "rrule" in mode or "hourly" in mode or "daily" in mode:
+        freq = "HOURLY" if "hourly" in mode else rng.choice(["DAILY", "HOURLY", "WEEKLY"])
+        interval = rng.choice([1, 2, 3, 6]) if freq == "HOURLY" else rng.choice([1, 1, 2])
+        c = rng.random()
+        bound = ["count", rng.choice([3, 5, 9, 26])] if c < 0.6 else (["until", s + rng.choice([5, 11, 30]) * interval * UNIT[freq]] if c < 0.85 else None)
+        o["rec"] = dict(freq=freq, interval=interval, bound=bound, ex=[], order=["FREQ", "INTERVAL", "BOUND"], explicit_interval=False)
+        if rng.random() < 0.3:
+            o["rec"]["ex"] = [s + rng.randrange(0, 4) * interval * UNIT[freq]]
+    if "rdate" in mode:
+        offs = rng.sample([1800, 3600, 2 * 3600, 5 * 3600, DAY, DAY + 1800, 2 * DAY, 3 * DAY + 7200, 9 * DAY, 40 * DAY], rng.choice([1, 2, 3, 4]))
+        o["rdate"] = sorted(s + x for x in offs)
+    if "override" in mode:
+        cand = master_starts(o, s + 3 * DAY)[:12]
+        for rid in rng.sample(cand, min(len(cand), rng.choice([1, 1, 2]))):
+            ns = rid + rng.choice([0, 900, -900, 2 * 3600, DAY, -DAY, 3 * DAY + 1800])
+            o["overrides"].append(dict(rid=rid, start=ns, end=ns + rng.choice([1, 900, 3600, 2 * 3600])))
+    return o
+
+
 def gen_obj(rng, t=None):
     t = t or rng.choice(["VEVENT", "VEVENT", "VTODO", "VTODO", "VJOURNAL"])
     return {"VEVENT": gen_vevent, "VTODO": gen_vtodo, "VJOURNAL": gen_vjournal}[t](rng)
 
 
+UNIT = {"HOURLY": 3600, "DAILY": DAY, "WEEKLY": 7 * DAY}
+
+
 def period_of(rec):
-    return rec["interval"] * (DAY if rec["freq"] == "DAILY" else 7 * DAY)
+    return rec["interval"] * UNIT[rec["freq"]]
 
 
 def gen_leading_ex(rng, t=None, forever=None):
@@ -490,12 +528,16 @@ def corpus():
 INF = float("inf")
 
 
-def occurrences(s0, rec, upto=None, maxn=5000):
-    """explicit occurrence list by plain arithmetic (no dateutil); for unbounded rules stops after `upto`."""
+def occurrences(s0, rec, upto=None, maxn=5000, frm=None):
+    """explicit occurrence list by plain arithmetic (no dateutil); for unbounded rules stops after `upto`;
+    `frm`: instances before it are not wanted (the index simply starts later)."""
     if not rec:
         return [s0]
-    p = rec["interval"] * (DAY if rec["freq"] == "DAILY" else 7 * DAY)
+    p = period_of(rec)
     out, k = [], 0
+    if frm is not None and frm > s0:
+        k = (frm - s0) // p
+        maxn += k
     b = rec["bound"]
     while k < maxn:
         d = s0 + k * p
@@ -509,6 +551,46 @@ def occurrences(s0, rec, upto=None, maxn=5000):
             out.append(d)
         k += 1
     return out
+
+
+def is_ext(o):
+    """outside the grammar of the Coq model (RDATE, RECURRENCE-ID overrides): covered by the oracle monitors only"""
+    return bool(o.get("rdate") or o.get("overrides"))
+
+
+def master_starts(o, upto, frm=None):
+    """instances of the master VEVENT by plain arithmetic: (rule instances + RDATE + DTSTART) - EXDATE - overridden ones"""
+    s0, rec = o["start"], o.get("rec")
+    ex = rec["ex"] if rec else []
+    st = set(occurrences(s0, rec, upto, 20000, frm)) if rec else {s0}
+    if o.get("rdate"):
+        st |= set(x for x in o["rdate"] + [s0] if x not in ex)
+    st -= set(ov["rid"] for ov in o.get("overrides") or [])
+    return sorted(st)
+
+
+def event_len(o):
+    e = o["end"]
+    if e and e[0] == "dtend":
+        return e[1] - o["start"]
+    if e and e[0] == "dur" and e[1] > 0:
+        return e[1]
+    return DAY if (not e and o["kind"] == "DATE") else 1
+
+
+def event_instances(o, upto):
+    """[(start, end)] of every instance of a VEVENT object (master instances and rescheduled ones), as the visitor /
+    the free-busy expansion must hand them out"""
+    ln = event_len(o)
+    return sorted([(D, D + ln) for D in master_starts(o, upto)] + [(ov["start"], ov["end"]) for ov in o.get("overrides") or []])
+
+
+def event_overlapping(o, r):
+    """[(start, end)] of the instances of a VEVENT object whose 9.9 row holds for the range r (both bounds given)"""
+    ln = event_len(o)
+    out = [(D, D + ln) for D in master_starts(o, r[1] + DAY, r[0] - 45 * DAY) if rfc_rows(o, D, r[0], r[1])]
+    out += [(ov["start"], ov["end"]) for ov in o.get("overrides") or [] if r[0] < ov["end"] and r[1] > ov["start"]]
+    return sorted(out)
 
 
 def rfc_rows(o, D, s, e):
@@ -540,18 +622,20 @@ def rfc_overlaps(o, r):
     anchors = [x for x in (r[0], r[1], ref_start(o)) if x is not None]
     horizon = max(anchors) + 200 * DAY        # unbounded rules: far enough to contain an instance after every bound
     if t == "VEVENT":
-        return any(rfc_rows(o, D, s, e) for D in occurrences(o["start"], o["rec"], horizon))
+        if any(s < ov["end"] and e > ov["start"] for ov in o.get("overrides") or []):     # row "has DTEND" of the override
+            return True
+        return any(rfc_rows(o, D, s, e) for D in master_starts(o, horizon, None if r[0] is None else r[0] - 45 * DAY))
     if t == "VJOURNAL":
         if o["start"] is None:
             return False
-        return any(rfc_rows(o, D, s, e) for D in occurrences(o["start"], o["rec"], horizon))
+        return any(rfc_rows(o, D, s, e) for D in occurrences(o["start"], o["rec"], horizon, 20000, None if r[0] is None else r[0] - 45 * DAY))
     ds, du, dd, c, cr = o["dtstart"], o["due"], o["duration"], o["completed"], o["created"]
     if ds is not None and dd is not None and du is None:
-        return any(s <= D + dd and (e > D or e >= D + dd) for D in occurrences(ds, o["rec"], horizon))
+        return any(s <= D + dd and (e > D or e >= D + dd) for D in occurrences(ds, o["rec"], horizon, 20000, None if r[0] is None else r[0] - 45 * DAY))
     if ds is not None and dd is None and du is not None:
-        return any((s < D + (du - ds) or s <= D) and (e > D or e >= D + (du - ds)) for D in occurrences(ds, o["rec"], horizon))
+        return any((s < D + (du - ds) or s <= D) and (e > D or e >= D + (du - ds)) for D in occurrences(ds, o["rec"], horizon, 20000, None if r[0] is None else r[0] - 45 * DAY))
     if ds is not None and dd is None and du is None:
-        return any(s <= D and e > D for D in occurrences(ds, o["rec"], horizon))
+        return any(s <= D and e > D for D in occurrences(ds, o["rec"], horizon, 20000, None if r[0] is None else r[0] - 45 * DAY))
     if ds is None and dd is None and du is not None:
         return s < du and e >= du
     if ds is None and dd is None and du is None:
@@ -645,10 +729,15 @@ def boundaries(o):
     s0 = ref_start(o)
     if s0 is None:
         return [T0]
+    if is_ext(o):
+        inst = event_instances(o, s0 + 10 * DAY)
+        inst = inst[:12] + inst[-2:]
+        pts = [x for a, b in inst for x in (a, b)] + [ov["rid"] for ov in o.get("overrides") or []]
+        return sorted(set(pts))
     occ = occurrences(s0, o.get("rec"), s0 + 30 * DAY, 40)
     if o.get("rec"):
         # also the candidates removed by EXDATE / cut by UNTIL
-        p = o["rec"]["interval"] * (DAY if o["rec"]["freq"] == "DAILY" else 7 * DAY)
+        p = period_of(o["rec"])
         occ = occ[:3] + occ[-2:] + [x for x in o["rec"]["ex"][:2]] + [s0 + p]
         if o["rec"]["bound"] and o["rec"]["bound"][0] == "until":
             occ.append(o["rec"]["bound"][1])
